@@ -192,11 +192,12 @@ Lemma encode_port_unfold port link :
   encode_port true port link =
   (let* p := resolve port in
    let* lb := port_link_bytes link in
+   let* (p1, extb) := (if 14 <? p then let* e := UINT_encode p in Ok (15, e) else Ok (p, [])) in
    let* (p', lenb) := (if 1 <? len lb
-                       then let* l := USINT_encode (len lb) in Ok (Z.lor p port_extended_link, l)
-                       else Ok (p, [])) in
+                       then let* l := USINT_encode (len lb) in Ok (Z.lor p1 port_extended_link, l)
+                       else Ok (p1, [])) in
    let* pb := USINT_encode p' in
-   let s := pb ++ lenb ++ lb in
+   let s := pb ++ lenb ++ extb ++ lb in
    Ok (s ++ (if odd_len s then [0] else []))).
 Proof. reflexivity. Qed.
 
@@ -209,11 +210,12 @@ Qed.
 
 (* what the encoder makes of a resolved port number and link bytes: a function of the hop alone *)
 Definition port_tail (p : Z) (lb : list Z) : res (list Z) :=
+  let* (p1, extb) := (if 14 <? p then let* e := UINT_encode p in Ok (15, e) else Ok (p, [])) in
   let* (p', lenb) := (if 1 <? len lb
-                       then let* l := USINT_encode (len lb) in Ok (Z.lor p port_extended_link, l)
-                       else Ok (p, [])) in
+                       then let* l := USINT_encode (len lb) in Ok (Z.lor p1 port_extended_link, l)
+                       else Ok (p1, [])) in
   let* pb := USINT_encode p' in
-  let s := pb ++ lenb ++ lb in
+  let s := pb ++ lenb ++ extb ++ lb in
   Ok (s ++ (if odd_len s then [0] else [])).
 Definition model_hop (h : hop) : res (list Z) :=
   wrap_all DataError (port_tail (h_port h) (link_bytes (h_link h))).
@@ -237,16 +239,33 @@ Proof.
   destruct (quad_props t H) as [_ Hl]. lia.
 Qed.
 
-Lemma model_hop_small h : wf_hop h = true -> h_port h <= 14 -> model_hop h = Ok (hop_bytes h).
+Lemma UINT_encode_word z : 0 <= z <= 65535 -> UINT_encode z = Ok [z mod 256; z / 256].
 Proof.
-  unfold wf_hop. intros Hw Hs. apply andb_prop in Hw as [Hp Hl]. pose proof (link_bytes_len _ Hl) as Hlen.
-  unfold model_hop, port_tail, hop_bytes, len, tlen.
-  replace (h_port h <? 15) with true by lia.
-  destruct (1 <? Z.of_nat (List.length (link_bytes (h_link h)))) eqn:Ebig.
-  - rewrite USINT_encode_byte by lia. cbn [bind]. unfold port_extended_link. rewrite lor16 by lia.
-    rewrite USINT_encode_byte by lia. cbn [bind wrap_all]. unfold odd_len. reflexivity.
-  - cbn [bind]. rewrite USINT_encode_byte by lia. cbn [bind wrap_all]. unfold odd_len.
-    rewrite Z.add_0_r. reflexivity.
+  intros H. unfold UINT_encode, uint_encode, in_urange, pow256.
+  replace ((0 <=? z) && (z <? 256 ^ Z.of_nat 2)) with true by (change (256 ^ Z.of_nat 2) with 65536; lia).
+  cbn [le_enc]. f_equal. f_equal. f_equal. lia.
+Qed.
+
+(* for every CIP port number 1..65535 (identifier 1..14, or 15 + the 16-bit extended port number)
+   the encoder emits the reference wire form of the hop *)
+Lemma model_hop_ok h : wf_hop h = true -> model_hop h = Ok (hop_bytes h).
+Proof.
+  unfold wf_hop. intros Hw. apply andb_prop in Hw as [Hp Hl]. pose proof (link_bytes_len _ Hl) as Hlen.
+  unfold PMAX in Hp. unfold model_hop, port_tail, hop_bytes, len, tlen.
+  destruct (h_port h <? 15) eqn:Esm.
+  - replace (14 <? h_port h) with false by lia. cbn [bind].
+    destruct (1 <? Z.of_nat (List.length (link_bytes (h_link h)))) eqn:Ebig.
+    + rewrite USINT_encode_byte by lia. cbn [bind]. unfold port_extended_link. rewrite lor16 by lia.
+      rewrite USINT_encode_byte by lia. cbn [bind wrap_all]. unfold odd_len. reflexivity.
+    + cbn [bind]. rewrite USINT_encode_byte by lia. cbn [bind wrap_all]. unfold odd_len.
+      rewrite Z.add_0_r. reflexivity.
+  - replace (14 <? h_port h) with true by lia. rewrite UINT_encode_word by lia. cbn [bind].
+    destruct (1 <? Z.of_nat (List.length (link_bytes (h_link h)))) eqn:Ebig.
+    + rewrite USINT_encode_byte by lia. cbn [bind]. unfold port_extended_link.
+      change (Z.lor 15 16) with (15 + 16).
+      rewrite USINT_encode_byte by lia. cbn [bind wrap_all]. unfold odd_len. reflexivity.
+    + cbn [bind]. rewrite USINT_encode_byte by lia. cbn [bind wrap_all]. unfold odd_len.
+      rewrite Z.add_0_r. reflexivity.
 Qed.
 
 Lemma hop_bad p l c : classify_hop p l = HBad c ->
